@@ -9,7 +9,8 @@ pub const T0: i64 = 1_700_000_000;
 
 #[derive(Clone, Debug)]
 pub struct Node {
-    /// f file, x executable file, l symlink, d directory, r directory with a `.git` repository inside
+    /// f file (0644), x executable file (0755), l symlink, d directory, r directory with a `.git` repository inside;
+    /// upper-case letters are regular files with other permission bits, see [`perm_of`]
     pub kind: u8,
     pub ms: i64,
     pub mns: u32,
@@ -154,6 +155,28 @@ impl Repo {
     }
 }
 
+/// permission bits of a regular-file kind. Only the owner's execute bit makes a file executable for git
+/// (`ce_mode_from_stat`: `S_IXUSR`) and for gix (`Metadata::is_executable`).
+pub const FILE_KINDS: &[(u8, u32)] = &[
+    (b'f', 0o644),
+    (b'x', 0o755),
+    (b'A', 0o654),
+    (b'B', 0o645),
+    (b'C', 0o655),
+    (b'E', 0o641),
+    (b'G', 0o611),
+    (b'H', 0o700),
+    (b'I', 0o600),
+    (b'J', 0o744),
+    (b'K', 0o754),
+];
+pub fn perm_of(kind: u8) -> u32 {
+    FILE_KINDS.iter().find(|(k, _)| *k == kind).map_or(0o644, |(_, m)| *m)
+}
+pub fn owner_exec(kind: u8) -> bool {
+    perm_of(kind) & 0o100 != 0
+}
+
 pub fn content(cid: u8, len: usize) -> Vec<u8> {
     // letters that are no file names of the generator: a symlink never points at itself or at a sibling
     vec![b'x' + cid; len]
@@ -219,14 +242,14 @@ impl Built {
                 b'l' => std::os::unix::fs::symlink(os(&content(n.cid, n.len)), &path).unwrap(),
                 _ => {
                     std::fs::write(&path, content(n.cid, n.len)).unwrap();
-                    let mode = if n.kind == b'x' { 0o755 } else { 0o644 };
+                    let mode = perm_of(n.kind);
                     std::fs::set_permissions(&path, std::fs::Permissions::from_mode(mode)).unwrap();
                 }
             }
         }
         // times last, so that nothing touches the files afterwards (directories do not matter)
         for n in &r.nodes {
-            if matches!(n.kind, b'f' | b'x' | b'l') {
+            if !matches!(n.kind, b'd' | b'r') {
                 let t = filetime::FileTime::from_unix_time(n.ms, n.mns);
                 filetime::set_symlink_file_times(worktree.join(os(&n.path)), t, t).unwrap();
             }
@@ -517,7 +540,14 @@ pub fn ent_for(n: &Node) -> Ent {
     Ent {
         mode: match n.kind {
             b'f' | b'x' | b'l' => n.kind,
-            _ => b'f',
+            b'd' | b'r' => b'f',
+            k => {
+                if owner_exec(k) {
+                    b'x'
+                } else {
+                    b'f'
+                }
+            }
         },
         flags: 0,
         stage: 0,
@@ -628,6 +658,24 @@ fn boundary() -> Vec<Repo> {
             }
         }
     }
+    // permission bits: only the owner's execute bit counts, for both entry modes, with and without core.filemode
+    for (wk, _) in FILE_KINDS {
+        for em in [b'f', b'x'] {
+            for xb in [true, false] {
+                for same in [true, false] {
+                    let n = file(*wk, "a", T0, 0, 0, 3);
+                    let mut e = ent_for(&n);
+                    e.mode = em;
+                    if !same {
+                        e.ecid = 1;
+                    }
+                    let mut opts = default_opts();
+                    opts.exec_bit = xb;
+                    out.push(Repo { opts, ts_s: T0 + 5, ts_ns: 0, excl: vec![], nodes: vec![n], ents: vec![e] });
+                }
+            }
+        }
+    }
     // a leading path component that is a file / a symlink / missing
     for wk in [b'f', b'l', b'-'] {
         let mut nodes = vec![];
@@ -701,6 +749,7 @@ fn gen_tree(rng: &mut Rng, prefix: &str, depth: usize, is_repo: bool, budget: &m
         } else {
             let kind = match k {
                 7..=8 => b'x',
+                11..=13 => FILE_KINDS[rng.below(FILE_KINDS.len() as u64) as usize].0,
                 9..=10 => b'l',
                 _ => b'f',
             };
